@@ -49,6 +49,27 @@ func (j *Journal) Hit(op, target string) bool {
 	return false
 }
 
+// CrashSentinel is the panic value with which the harness kills the scan at a crash point.
+type CrashSentinel struct{}
+
+// MaybeCrash is called at every write site before the write is performed: the process dies just before its k-th write call
+// of the scan when the fault (crash, "#k") is set.
+func (j *Journal) MaybeCrash() {
+	j.mu.Lock()
+	j.count["__write"]++
+	k := "#" + strconv.Itoa(j.count["__write"])
+	die := false
+	for _, f := range j.faults {
+		if f.Op == "crash" && f.T == k {
+			die = true
+		}
+	}
+	j.mu.Unlock()
+	if die {
+		panic(CrashSentinel{})
+	}
+}
+
 func (j *Journal) Add(c Call) {
 	if c.R == nil {
 		c.R = [][]int{}
@@ -155,6 +176,7 @@ func (s *SimAWS) CreateOrUpdateTags(in *autoscaling.CreateOrUpdateTagsInput) (*a
 }
 
 func (s *SimAWS) SetDesiredCapacity(in *autoscaling.SetDesiredCapacityInput) (*autoscaling.SetDesiredCapacityOutput, error) {
+	s.J.MaybeCrash()
 	s.mu.Lock()
 	defer s.mu.Unlock()
 	a, ok := s.Asgs[aws.StringValue(in.AutoScalingGroupName)]
@@ -182,6 +204,7 @@ func (s *SimAWS) SetDesiredCapacity(in *autoscaling.SetDesiredCapacityInput) (*a
 }
 
 func (s *SimAWS) TerminateInstanceInAutoScalingGroup(in *autoscaling.TerminateInstanceInAutoScalingGroupInput) (*autoscaling.TerminateInstanceInAutoScalingGroupOutput, error) {
+	s.J.MaybeCrash()
 	s.mu.Lock()
 	defer s.mu.Unlock()
 	id := aws.StringValue(in.InstanceId)
@@ -276,6 +299,7 @@ func idRange(ids []*string) (lo, hi int, contig bool, desc string) {
 }
 
 func (s *SimAWS) AttachInstances(in *autoscaling.AttachInstancesInput) (*autoscaling.AttachInstancesOutput, error) {
+	s.J.MaybeCrash()
 	s.mu.Lock()
 	defer s.mu.Unlock()
 	a, ok := s.Asgs[aws.StringValue(in.AutoScalingGroupName)]
@@ -356,6 +380,7 @@ func (e *SimEC2) DescribeInstances(in *ec2.DescribeInstancesInput) (*ec2.Describ
 }
 
 func (e *SimEC2) CreateFleet(in *ec2.CreateFleetInput) (*ec2.CreateFleetOutput, error) {
+	e.A.J.MaybeCrash()
 	s := e.A
 	s.mu.Lock()
 	defer s.mu.Unlock()
@@ -455,6 +480,7 @@ func (e *SimEC2) DescribeInstanceStatusPages(in *ec2.DescribeInstanceStatusInput
 }
 
 func (e *SimEC2) TerminateInstances(in *ec2.TerminateInstancesInput) (*ec2.TerminateInstancesOutput, error) {
+	e.A.J.MaybeCrash()
 	s := e.A
 	s.mu.Lock()
 	defer s.mu.Unlock()
